@@ -95,7 +95,10 @@ def run(ctx):
     for (t, l), a, c in zip(lits, verdicts, codes):
         hist[c] = hist.get(c, 0) + 1
         payload = {"property": prop, "type": t, "literal": l, "implementation_accepts": a}
-        if c == 1:
+        if c == 4:
+            res["failures"].append(dict(payload, what="constant %s %s is %s although its value is %s the range of its type (the model of the unchanged range check disagrees as well)" % (
+                t, l, "accepted" if a else "rejected", "outside" if a else "inside")))
+        if c in (1, 4):
             res["corr_broken"].append({"kind": "correspondence", "detail": "range-check model vs Primitive::new disagree on %s %s (impl accepts: %s)" % (t, l, a), "case": payload})
         elif c == 2:
             res["failures"].append(dict(payload, what="constant %s %s is %s although its value is %s the range of its type" % (t, l, "accepted" if a else "rejected", "outside" if a else "inside")))
